@@ -927,7 +927,7 @@ func init() {
 					}
 					return 4
 				},
-				Body: c06CarrierBody([]int{1, 0, 2, 3, 4}),
+				Body: witnessTree(c06CarrierBody([]int{1, 0, 2, 3, 4}), witnessPSI),
 			},
 			&engine.Tree{
 				Name: "reader-fragmentation",
@@ -943,7 +943,7 @@ func init() {
 			&engine.Enum[c06BigCase]{
 				Name: "large-sections",
 				Rule: "case = section padded to an exact section_length in {150,180,181,184,400,1021} (thorough: 16 lengths around the one-, two- and three-packet limits up to the maximal 1021) x 2 content variants x lead-in {pointer_field 0, pointer_field 100 with filler, foreign section first} x last-packet style (quick: one style per variant); the last stream's ES_info_length exceeds 255; per case: accessors, done predicate on every prefix, ExtractCRC, NewPMT, ReadPMT for every first-packet size 1..184 x second packet full/3 bytes with a foreign-PID packet in every gap; non-trivial = each (case, first size, second size)",
-				Gen:  c06GenBig, Check: c06CheckBig, Batch: 1,
+				Gen:  c06GenBig, Check: witnessEnum(c06CheckBig, witnessPSI), Batch: 1,
 			},
 			&engine.Enum[c06ReuseCase]{
 				Name: "accumulator-reuse",
@@ -957,7 +957,7 @@ func init() {
 						}
 					}
 				},
-				Check: c06CheckReuse, Batch: 4,
+				Check: witnessEnum(c06CheckReuse, witnessPSI), Batch: 4,
 			},
 			&engine.Enum[c06HdrCase]{
 				Name: "table-header-codec",
